@@ -493,7 +493,12 @@ pub struct SSubscriber {
     pub env: Arc<Env>,
     /// forward every notification as action id+10 to this other store (two-store runs)
     pub fwd: Option<Arc<Shared>>,
+    /// gives the object an allocation size nothing else in the process uses, so that the allocator
+    /// hands the address of a released subscriber to the next one registered by the same thread:
+    /// anything that identifies subscribers by address alone then confuses the two
+    pub pad: [u8; SUB_PAD],
 }
+pub const SUB_PAD: usize = 920;
 
 impl Subscriber<St, Act> for SSubscriber {
     fn on_notify(&self, state: &St, action: &Act) {
@@ -668,6 +673,7 @@ pub fn run_op(sh: &Arc<Shared>, o: &OpDesc) -> Value {
                             id: o.s.clone(),
                             env: env.clone(),
                             fwd: None,
+                            pad: [0; SUB_PAD],
                         })
                     })
                     .clone();
@@ -681,6 +687,7 @@ pub fn run_op(sh: &Arc<Shared>, o: &OpDesc) -> Value {
                     id: o.s.clone(),
                     env: env.clone(),
                     fwd,
+                    pad: [0; SUB_PAD],
                 });
                 if o.via == "store" {
                     <TStore as Store<St, Act>>::add_subscriber(store, obj) // through the Store trait
@@ -705,6 +712,7 @@ pub fn run_op(sh: &Arc<Shared>, o: &OpDesc) -> Value {
                 id: o.s.clone(),
                 env: env.clone(),
                 fwd: None,
+                pad: [0; SUB_PAD],
             });
             let r = if o.via == "store" {
                 <TStore as Store<St, Act>>::subscribed_with(store, c.cap, policy(&c.pol), user) // Store trait
